@@ -256,11 +256,12 @@ class Grammar:
     # ---- tree
     def run_tree(self, key, algo, rng):
         L = self.L
-        from dulwich.objects import Tree, parse_tree, sorted_tree_items, serialize_tree
+        from dulwich.objects import Tree, parse_tree
         fmt = self.fmt(algo)
         ents = L.tree_entries(key, algo)
         want = self.expected("tree", key, algo)
-        ser_site = "dulwich/objects.py:Tree._serialize" if self.mode == "py" else "crates/objects/src/lib.rs:sorted_tree_items"
+        # in "rs" mode Tree._serialize / _deserialize run on top of the Rust sorted_tree_items / parse_tree
+        ser_site = "dulwich/objects.py:Tree._serialize" + ("" if self.mode == "py" else "+crates/objects/src/lib.rs:sorted_tree_items")
         de_site = "dulwich/objects.py:parse_tree" if self.mode == "py" else "crates/objects/src/lib.rs:parse_tree"
         orders = [list(ents), list(reversed(ents))]
         sh = list(ents)
